@@ -79,9 +79,12 @@ func TestVerifC19ServerSharp(t *testing.T) {
 			for _, comp := range verifkit.Encodings {
 				for _, zero := range []bool{true, false} {
 					for _, delta := range []int{-1, 0, 1} {
-						for _, rpc := range []string{"unary", "client-stream", "client-stream-errdef"} {
-							if rpc != "unary" && L > 5000 && !verifkit.Thorough() {
+						for _, rpc := range []string{"unary", "client-stream", "client-stream-errdef", "idempotent-get"} {
+							if rpc != "unary" && rpc != "idempotent-get" && L > 5000 && !verifkit.Thorough() {
 								continue
+							}
+							if rpc == "idempotent-get" && (po.name != "connect" || L > 200*1024 || (comp != "identity" && comp != "gzip")) {
+								continue // GET is a Connect feature; the message travels base64-encoded in the URL
 							}
 							var opts []connect.ClientOption
 							if po.opt != nil {
@@ -99,6 +102,25 @@ func TestVerifC19ServerSharp(t *testing.T) {
 							var echoedOK bool
 							var compressedLen int
 							switch rpc {
+							case "idempotent-get":
+								d := vfPayloadFor(size, zero, func(b []byte) proto.Message { return &conformancev1.IdempotentUnaryRequest{RequestData: b} })
+								if d == nil {
+									rep.Count("unreachable_size", 1)
+									continue
+								}
+								msg := &conformancev1.IdempotentUnaryRequest{RequestData: d}
+								raw, _ := proto.Marshal(msg)
+								c, _ := verifkit.IndepCompress(comp, raw)
+								compressedLen = len(c)
+								gcl := conformancev1connect.NewConformanceServiceClient(httpc, base, append(append([]connect.ClientOption{}, opts...), connect.WithHTTPGet())...)
+								req := connect.NewRequest(msg)
+								req.Header().Set("X-Test-Case-Name", name)
+								resp, err := gcl.IdempotentUnary(context.Background(), req)
+								callErr = err
+								if err == nil {
+									echoedOK = resp.Msg.GetPayload().GetRequestInfo().GetConnectGetInfo() != nil || len(resp.Msg.GetPayload().GetRequestInfo().GetRequests()) == 1
+									rep.Count("get_requests_accepted", 1)
+								}
 							case "unary":
 								d := vfPayloadFor(size, zero, func(b []byte) proto.Message { return &conformancev1.UnaryRequest{RequestData: b} })
 								if d == nil {
